@@ -19,6 +19,10 @@ def main(run):
         for rows, cols in shapes:
             run.prove(f"save_json[file_exists={ex},shape={rows}x{cols}]", SS.sc_save_json,
                       {"file_exists": ex, "rows": rows, "cols": cols}, pkg=pkg)
+        # the directory as an earlier CRASHED save may have left it: every sibling file the routine writes to exists
+        # already, with stale bytes of unknown length (history "crash, then save" folded into the initial state)
+        run.prove(f"save_json.after_crashed_save[file_exists={ex}]", SS.sc_save_json,
+                  {"file_exists": ex, "rows": 2, "cols": 2, "leftovers": True}, pkg=pkg)
     run.discharge()
     # bounded / replay layer: the real function, real files, every crash point
     from rt import crash
@@ -32,6 +36,19 @@ def main(run):
             if bad:
                 run._report_violation(f"crash[earlier={earlier},shape={rows}x{cols}]/atomic.every_crash_point", SS.sc_save_json,
                                       {"file_exists": earlier > 0, "rows": rows, "cols": cols}, {"earlier": earlier}, True,
+                                      detail={"layer": "fault-injection on the real function", "witnesses": bad[:3]})
+    # kill points that do not depend on which API the routine uses (profile hook on every C-level file-system verb), and
+    # the history "a large save is killed, a small one follows"
+    for earlier, rows, cols in ([(1, 2, 2)] if run.tier == "quick" else [(0, 1, 1), (1, 2, 2), (2, 4, 3)]):
+        for nm, fn in (("profile_sweep", crash.profile_sweep), ("crash_then_save", crash.crash_then_save)):
+            bad = fn(earlier, rows, cols)
+            run.native_evals += 1
+            run.native_distinct.add((nm, earlier, rows, cols))
+            rows_.append({"harness": nm, "earlier_runs": earlier, "shape": f"{rows}x{cols}", "violating_crash_points": len(bad)})
+            if bad:
+                run._report_violation(f"{nm}[earlier={earlier},shape={rows}x{cols}]/atomic.every_crash_point", SS.sc_save_json,
+                                      {"file_exists": earlier > 0, "rows": rows, "cols": cols, "leftovers": nm == "crash_then_save"},
+                                      {"earlier": earlier}, True,
                                       detail={"layer": "fault-injection on the real function", "witnesses": bad[:3]})
     run.bounded.append({"label": "crash injection on the real save_json (every write/close/replace call fails once)", "rows": rows_,
                         "bound": "hard kill (fork + os._exit, with and without flushing user-space buffers) at every effect point; file histories with 0/2 (0..5) earlier runs x result shapes incl. one larger than the 8 KiB write buffer (thorough); byte comparison with old/new file"})
